@@ -370,3 +370,23 @@ M('C19', 'volume-test-dropped', L,
 M('C19', 'duplicate-default-mislabelled', L, "				elif default == \"duplicate\":\n					self.duplicate_indices.push_back(index)", "				elif default == \"duplicate\":\n					self.binomial_indices.push_back(index)", 'fire', 'R19.1-index-classes/LineageVolumeSplitter')
 M('C19', 'duplicate-option-mislabelled', L, "			elif options[s] == \"duplicate\":\n				self.duplicate_indices.push_back(index)", "			elif options[s] == \"duplicate\":\n				self.perfect_indices.push_back(index)", 'fire', 'R19.1-index-classes/LineageVolumeSplitter')
 M('C19', 'silent-conservation-rewrite', S, "            amount = cyrandom.binom_rnd_f(dstate[species_index],p)\n            dstate[species_index] = <double> amount\n", "            dstate[species_index] = <double> cyrandom.binom_rnd_f(dstate[species_index],p)\n", 'silent')
+
+# ------------------------------------------------------------------ C08
+M('C08', 'create-rule-no-invalidate', T, "        self.initialized = False\n\n        # Parse the rule by rule type", "\n        # Parse the rule by rule type", 'fire', 'R8.1-invalidate/Model.create_rule')
+M('C08', 'add-species-no-invalidate', T, "        self.initialized = False\n        if species not in self.species2index and species is not None and species != '':",
+  "        if species not in self.species2index and species is not None and species != '':", 'fire', 'R8.1-invalidate/Model._add_species')
+M('C08', 'revert-add-lineage-rule', L, "VolumeSplitter volume_splitter = None):\n		self.initialized = False\n		species_names, param_names = rule_object", "VolumeSplitter volume_splitter = None):\n		species_names, param_names = rule_object", 'fire', 'R8.1-invalidate/LineageModel.add_lineage_rule')
+M('C08', 'interface-no-autoinit', S, "        if not self.model.initialized:\n            self.model.py_initialize()\n", "        if not self.model.initialized:\n            pass\n", 'fire', 'R8.2-stale-refused/ModelCSimInterface.__init__')
+M('C08', 'check-interface-removed', S, "    def py_volume_simulate(self, CSimInterface sim, Volume v, np.ndarray timepoints):\n        sim.check_interface()\n", "    def py_volume_simulate(self, CSimInterface sim, Volume v, np.ndarray timepoints):\n", 'fire', 'R8.2-stale-refused/VolumeSimulator.py_volume_simulate')
+M('C08', 'propensities-not-cleared', T, "        self.propensities = []\n        self.c_propensities.clear()\n", "        self.propensities = []\n", 'fire', 'R8.3-rebuild/Model/self.c_propensities')
+M('C08', 'lineage-vector-not-cleared', L, "		self.c_volume_rules.clear()\n		self.c_death_rules.clear()\n		self.c_division_rules.clear()\n", "		self.c_volume_rules.clear()\n		self.c_division_rules.clear()\n", 'fire', 'R8.3-rebuild/LineageModel/self.c_death_rules')
+M('C08', 'state-not-copied-delay', S, "        cdef np.ndarray[np.double_t,ndim=1] c_current_state = sim.get_initial_state().copy()\n        cdef np.ndarray[np.double_t,ndim=2] c_stoich = sim.get_update_array()\n        cdef np.ndarray[np.double_t,ndim=2] c_delay_stoich = sim.get_delay_update_array()\n\n        cdef unsigned num_species = c_stoich.shape[0]\n        cdef unsigned num_reactions = c_stoich.shape[1]\n        cdef unsigned num_timepoints = c_timepoints.shape[0]\n\n\n",
+  "        cdef np.ndarray[np.double_t,ndim=1] c_current_state = sim.get_initial_state()\n        cdef np.ndarray[np.double_t,ndim=2] c_stoich = sim.get_update_array()\n        cdef np.ndarray[np.double_t,ndim=2] c_delay_stoich = sim.get_delay_update_array()\n\n        cdef unsigned num_species = c_stoich.shape[0]\n        cdef unsigned num_reactions = c_stoich.shape[1]\n        cdef unsigned num_timepoints = c_timepoints.shape[0]\n\n\n",
+  'fire', 'R8.4-work-on-copies/DelaySSASimulator')
+M('C08', 'revert-param-rebind', S, "                    np.copyto(sim.py_get_param_values(), p0)", "                    sim.py_set_param_values(p0)", 'fire', 'R8.4-work-on-copies/DeterministicSimulator')
+M('C08', 'interface-copies-params', S, "        self.np_param_values = self.model.get_params_values()\n", "        self.np_param_values = self.model.get_params_values().copy()\n", 'fire', 'R8.4-shared-arrays')
+M('C08', 'np-random-draw', S, "            Lambda = cyrandom.array_sum(<double*> c_propensity.data,num_reactions)\n", "            Lambda = cyrandom.array_sum(<double*> c_propensity.data,num_reactions) + 0*np.random.rand()\n", 'fire', 'R8.5-who-may-draw')
+M('C08', 'seed-partial', R, "    mag01[0] = 0ULL\n    mag01[1] = MATRIX_A\n    mti = NN", "    mag01[0] = 0ULL\n    mag01[1] = MATRIX_A", 'fire', 'R8.5-seed/mt_seed')
+M('C08', 'seed-offset', R, "    else:\n        mt_seed(seed)", "    else:\n        mt_seed(seed + time.time())", 'fire', 'R8.5')
+M('C08', 'global-pointer-conditional', S, "        global_simulator = <void*> sim\n", "        if num_species > 1:\n            global_simulator = <void*> sim\n", 'fire', 'R8.6-global-pointer')
+M('C08', 'silent-invalidate-moved', T, "        self.initialized = False\n\n        # Parse the rule by rule type", "        self.initialized = False\n        input_printout = bool(input_printout)\n        # Parse the rule by rule type", 'silent')
